@@ -19,7 +19,7 @@ type Op struct {
 
 var OpKinds = []string{"remove-member", "swap-members", "rename-field", "add-field", "remove-message", "add-message",
 	"toggle-required", "change-field-type", "change-type-mapping", "add-enum-values", "add-group", "add-component",
-	"remove-component", "duplicate-field-number", "duplicate-msgtype", "reorder-messages", "add-nested-groups", "move-framing-field", "same-group-in-components", "change-version", "add-time-field", "type-named-like-enum-field", "enum-of-unmapped-type"}
+	"remove-component", "duplicate-field-number", "duplicate-msgtype", "reorder-messages", "add-nested-groups", "move-framing-field", "same-group-in-components", "change-version", "add-time-field", "type-named-like-enum-field", "enum-of-unmapped-type", "optional-session-field"}
 
 // names the generator or the library's interfaces rely on
 var protectedFields = map[string]bool{
@@ -215,6 +215,25 @@ func Apply(base *schema.Schema, baseTM *schema.TypeMap, ops []Op) (s *schema.Sch
 			m := (*h.members)[op.B%len(*h.members)]
 			m.Required = !m.Required
 			note("set required=%v on %s %s of %s", m.Required, m.Kind, m.Name, h.label)
+		case "optional-session-field":
+			// a dictionary that marks one of the fields the session layer needs (they must be PRESENT in the
+			// header / trailer) as optional: the constructor of the component takes the required members only
+			var cand []*schema.Member
+			for _, m := range s.Header.Members {
+				switch m.Name {
+				case "SenderCompID", "TargetCompID", "MsgSeqNum", "SendingTime":
+					if m.Required {
+						cand = append(cand, m)
+					}
+				}
+			}
+			if len(cand) == 0 {
+				skip(op, "no required session field left in the header")
+				continue
+			}
+			m := cand[op.A%len(cand)]
+			m.Required = false
+			note("header field %s marked required='N'", m.Name)
 		case "change-field-type":
 			f := s.Fields[op.A%len(s.Fields)]
 			if protectedFields[f.Name] || isGroupName(s, f.Name) {
@@ -332,9 +351,13 @@ func Apply(base *schema.Schema, baseTM *schema.TypeMap, ops []Op) (s *schema.Sch
 				continue
 			}
 			tname := tm.Entries[free[op.A%len(free)]].Name
+			cast := "Time"
+			if op.A%3 == 2 {
+				cast = "Raw" // the other cast no shipped mapping uses
+			}
 			for j := range tm.Entries {
 				if tm.Entries[j].Name == tname {
-					tm.Entries[j].Cast = "Time"
+					tm.Entries[j].Cast = cast
 				}
 			}
 			fresh++
@@ -343,7 +366,7 @@ func Apply(base *schema.Schema, baseTM *schema.TypeMap, ops []Op) (s *schema.Sch
 			h := hs[op.B%len(hs)]
 			pos := op.C % (len(*h.members) + 1)
 			*h.members = append((*h.members)[:pos:pos], append([]*schema.Member{{Kind: "field", Name: fname, Required: op.C%2 == 0}}, (*h.members)[pos:]...)...)
-			note("map FIX type %s to Time and add field %s of that type to %s at %d", tname, fname, h.label, pos)
+			note("map FIX type %s to %s and add field %s of that type to %s at %d", tname, cast, fname, h.label, pos)
 		case "type-named-like-enum-field", "enum-of-unmapped-type":
 			// dictionaries in the FIX-repository spelling name data types like fields (field Currency of
 			// type Currency), and dictionaries newer than the mapping type their enumerations with names
